@@ -94,7 +94,7 @@ CHECKS = {
     "C11": dict(
         cat="fault_enumeration", engine="corruptmon", design="3/C11",
         technique="runtime monitoring: enumerated single-byte/bit/truncation/sector corruptions of generated database files, answers compared with the model (+ASan/UBSan pass)",
-        text="Every byte of index/filter/metaindex/footer/trailers and a stride over data bytes (thorough: every byte of two databases, stride 6 over four more) of "
+        text="Every byte of index/filter/metaindex/footer/trailers and a stride over data bytes (thorough: every byte of one database, stride 6 over three more) of "
              "every table, WAL, MANIFEST and CURRENT of generated databases gets each bit flip, 00, FF, truncation and a "
              "zeroed sector; with paranoid checks + checksum verification every get/scan must be correct or report an "
              "error; WAL/MANIFEST damage may drop whole batches only.",
